@@ -470,8 +470,25 @@ def xsi_default(rec):
     return 'xsi:type' in rec.tags and ('default' in rec.tags or 'fixed' in rec.tags)
 
 
+class _TaggedOut:
+    """failures on a value whose type is a RESTRICTION OF A LIST type get their own keys: the decoder finds the item
+    type of such a type through a different path (listed finding), whatever the symptom"""
+
+    def __init__(self, out, rec):
+        self._out, self._rec = out, rec
+
+    def fail(self, key, detail):
+        if 'restricted-list' in self._rec.tags and key.startswith('C20/typed-value/'):
+            key = 'C20/typed-value/restriction-of-list/' + key[len('C20/typed-value/'):]
+        self._out.fail(key, detail)
+
+    def __getattr__(self, name):
+        return getattr(self._out, name)
+
+
 def compare_typed(out, rec, exp, got_outcome, via):
     """returns 'ok' | 'class' | 'bad'"""
+    out = _TaggedOut(out, rec)
     if got_outcome[0] != 'ok':
         if got_outcome[:2] == ('err', 'FOTY0012') and not exp and via == 'data()':
             out.fail('C20/data/empty-typed-value/err:FOTY0012',
